@@ -16,10 +16,14 @@ pub struct AltR {
     pub found: Option<Option<char>>,
     pub custom: Option<String>,
     pub ctx: Vec<(String, (usize, usize))>,
+    /// contexts of every merged event (which ones survive a merge is not specified)
+    pub ctx_any: Vec<(String, (usize, usize))>,
     /// number of failure events merged at this position (evidence only)
     pub merged: usize,
     /// some contributing event has no specified position (failed `not`, nested_delimiters...)
     pub fuzzy: bool,
+    /// `found` is unspecified (a label rewrote a user-supplied error, which carries no found token)
+    pub found_fuzzy: bool,
 }
 
 #[derive(Clone, Debug, PartialEq)]
@@ -55,6 +59,10 @@ pub struct Stats {
     pub events_kept_earlier: u32,
     pub events_merged: u32,
     pub events_merged_diff: u32,
+    pub map_err_applied: u64,
+    pub label_at_start: u32,
+    pub label_further_in: u32,
+    pub label_sheltered_pending: u32,
     pub custom_at_max: u32,
     pub rec_calls: u32,
     pub max_rec_depth: u32,
@@ -182,6 +190,12 @@ impl<'a> Rf<'a> {
                     self.stats.events_merged += 1;
                     old.merged += new.merged;
                     old.fuzzy |= new.fuzzy;
+                    old.found_fuzzy |= new.found_fuzzy;
+                    for c in new.ctx_any.iter().chain(new.ctx.iter()) {
+                        if !old.ctx_any.contains(c) {
+                            old.ctx_any.push(c.clone());
+                        }
+                    }
                     if old.custom.is_some() {
                         // first user error wins
                     } else if new.custom.is_some() {
@@ -209,7 +223,7 @@ impl<'a> Rf<'a> {
         let n = self.n();
         let found = self.toks.get(pos).copied();
         let span = (span.0.min(n), span.1.min(n));
-        self.add(AltR { pos, span, exp, found: Some(found), custom: None, ctx: vec![], merged: 1, fuzzy: false });
+        self.add(AltR { pos, span, exp, found: Some(found), custom: None, ctx: vec![], ctx_any: vec![], merged: 1, fuzzy: false, found_fuzzy: false });
     }
     fn custom_event(&mut self, pos: usize, msg: String, span: (usize, usize)) {
         let n = self.n();
@@ -221,8 +235,10 @@ impl<'a> Rf<'a> {
             found: None,
             custom: Some(msg),
             ctx: vec![],
+            ctx_any: vec![],
             merged: 1,
             fuzzy: false,
+            found_fuzzy: false,
         });
     }
 
@@ -466,8 +482,10 @@ impl<'a> Rf<'a> {
                             found: Some(found),
                             custom: None,
                             ctx: vec![],
+                            ctx_any: vec![],
                             merged: 1,
                             fuzzy: true,
+                            found_fuzzy: false,
                         });
                         Err(())
                     }
@@ -611,7 +629,13 @@ impl<'a> Rf<'a> {
                 let inner = self.alt.take();
                 self.alt = saved;
                 if let Some(mut i) = inner {
+                    if let Some(sv) = &self.alt {
+                        if sv.pos >= i.pos {
+                            self.stats.label_sheltered_pending += 1;
+                        }
+                    }
                     if i.pos == pos {
+                        self.stats.label_at_start += 1;
                         if r.is_ok() {
                             self.stats.used_vlabel = true;
                         }
@@ -619,11 +643,16 @@ impl<'a> Rf<'a> {
                             i.exp = [Pat::Label(l.clone())].into_iter().collect();
                             if i.custom.take().is_some() {
                                 i.found = Some(None);
+                                i.found_fuzzy = true;
                             }
                         }
                     } else if *as_ctx && i.pos > pos {
+                        self.stats.label_further_in += 1;
                         if !i.ctx.iter().any(|(x, _)| x == l) {
                             i.ctx.push((l.clone(), (pos, i.pos)));
+                        }
+                        if !i.ctx_any.iter().any(|(x, _)| x == l) {
+                            i.ctx_any.push((l.clone(), (pos, i.pos)));
                         }
                     }
                     self.add(i);
@@ -654,6 +683,8 @@ impl<'a> Rf<'a> {
                             i.found = None;
                             i.exp.clear();
                             i.ctx.clear();
+                            i.ctx_any.clear();
+                            self.stats.map_err_applied += 1;
                             self.add(i);
                         }
                         Err(())
